@@ -236,7 +236,7 @@ Definition length_ok (cfg : rcfg) (len : N) : bool :=
   negb ((max_array_size_bytes cfg <? len) && (0 <? max_array_size_bytes cfg)).
 
 Definition is_stringlike_validated (t : arrty) : bool :=
-  (t =? AT_String) || (t =? AT_ResourceID) || (t =? AT_CustomText).
+  (t =? AT_String) || (t =? AT_ResourceID) || (t =? AT_CustomText) || (t =? AT_ReferenceRemote).
 
 Definition blen (b : bytes) : N := N.of_nat (length b).
 
@@ -292,27 +292,31 @@ Definition local_reference (id : bytes) (allowed : N) (c : rctx) : option rctx :
 (* ---- the streaming UTF-8 splitter (Context.StreamStringData) ---- *)
 Definition rune_byte_count (b : N) : N := nth (N.to_nat (N.shiftr b 3)) rune_byte_counts 0.
 
-(* chars.IndexOfLastRuneStart *)
-Fixpoint last_rune_start_from (rev_prefix : bytes) (idx : nat) (total : nat) : nat * bool :=
+(* chars.IndexOfLastRuneStart.  When a non-empty piece holds no rune start at all the Go loop
+   leaves index = -1 and the caller's slice expression panics: None. *)
+Fixpoint last_rune_start_from (rev_prefix : bytes) (idx : nat) (total : nat) : option (nat * bool) :=
   (* rev_prefix = the bytes at positions idx-1, idx-2, ... 0 *)
   match rev_prefix, idx with
   | b :: r, S i =>
       let n := rune_byte_count b in
-      if 0 <? n then (i, Nat.eqb (i + N.to_nat n) total) else last_rune_start_from r i total
-  | _, _ => (O, false)
+      if 0 <? n then Some (i, Nat.eqb (i + N.to_nat n) total) else last_rune_start_from r i total
+  | _, _ => None
   end.
-Definition index_of_last_rune_start (data : bytes) : nat * bool :=
+Definition index_of_last_rune_start (data : bytes) : option (nat * bool) :=
   match data with
-  | [] => (O, true)
+  | [] => Some (O, true)
   | _ => last_rune_start_from (rev data) (length data) (length data)
   end.
 
 (* result: (firstRuneBytes, nextRunesBytes, new remainder); None = the Go code panics *)
 Definition tail_split (data : bytes) : option (bytes * bytes) :=
-  let '(idx, complete) := index_of_last_rune_start data in
-  if complete then Some (data, [])
-  else let remn := skipn idx data in
-       if (4 <? length remn)%nat then None else Some (firstn idx data, remn).
+  match index_of_last_rune_start data with
+  | None => None
+  | Some (idx, complete) =>
+    if complete then Some (data, [])
+    else let remn := skipn idx data in
+         if (4 <? length remn)%nat then None else Some (firstn idx data, remn)
+  end.
 
 Definition stream_string_data (rem data : bytes) : option (bytes * bytes * bytes) :=
   match rem with
@@ -561,6 +565,7 @@ Definition rstep (cfg : rcfg) (c : rctx) (e : event) : option (rctx * list event
   | EStringArray t data =>
       if array_api_ok t then fwd1 (obind (notify_new_object cfg true c) (call_current cfg MStringlikeArray (array_args t 0 data))) else None
   | EMedia mt data =>
+      if negb (utf8_valid mt) then None else
       fwd1 (obind (notify_new_object cfg true c) (call_current cfg MArray (array_args AT_Media (blen data) data)))
   | ECustomBin ct data =>
       fwd1 (obind (notify_new_object cfg true c) (call_current cfg MArray (array_args AT_CustomBinary (blen data) data)))
@@ -568,7 +573,7 @@ Definition rstep (cfg : rcfg) (c : rctx) (e : event) : option (rctx * list event
       fwd1 (obind (notify_new_object cfg true c) (call_current cfg MStringlikeArray (array_args AT_CustomText 0 data)))
   | EArrayBegin t =>
       if array_api_ok t then fwd1 (obind (notify_new_object cfg true c) (call_current cfg MArrayBegin (array_args t 0 []))) else None
-  | EMediaBegin mt => fwd1 (obind (notify_new_object cfg true c) (call_current cfg MArrayBegin (array_args AT_Media 0 [])))
+  | EMediaBegin mt => if negb (utf8_valid mt) then None else fwd1 (obind (notify_new_object cfg true c) (call_current cfg MArrayBegin (array_args AT_Media 0 [])))
   | ECustomBegin t ct =>
       if custom_api_ok t then fwd1 (obind (notify_new_object cfg true c) (call_current cfg MArrayBegin (array_args t 0 []))) else None
   | EArrayChunk n more => fwd1 (call_current cfg MArrayChunk
